@@ -55,10 +55,12 @@ partial def loop (m : Machine) (h : IO.FS.Stream) (out : IO.FS.Stream) (s : m.σ
   match ws with
   | ["reset"] =>
     out.putStrLn "reset"
+    out.flush
     loop m h out m.init
   | _ =>
     let (s', o) := m.step s ws
     out.putStrLn o
+    out.flush
     loop m h out s'
 
 end WindVerif.Drv
